@@ -12,6 +12,8 @@ import (
 	"github.com/ipfs/go-unixfsnode/data/builder"
 	dagpb "github.com/ipld/go-codec-dagpb"
 	cidlink "github.com/ipld/go-ipld-prime/linking/cid"
+	mh "github.com/multiformats/go-multihash"
+	"github.com/spaolacci/murmur3"
 	"pgregory.net/rapid"
 )
 
@@ -209,7 +211,19 @@ func genNames(t *rapid.T, o nameOpts) ([]string, []string) {
 	}
 	ngroups := rapid.IntRange(0, 12).Draw(t, "ngroups")
 	for g := 0; g < ngroups && len(set) < o.Max; g++ {
-		switch rapid.IntRange(0, 9).Draw(t, "gkind") {
+		switch rapid.IntRange(0, 11).Draw(t, "gkind") {
+		case 10, 11:
+			// hash-targeted 16-byte names sharing a drawn number of leading digest bits (<= 59: separable at every fanout)
+			shared := rapid.SampledFrom([]int{1, 7, 8, 9, 15, 16, 24, 31, 32, 33, 40, 47, 48, 50, 54, 55, 56, 57, 58, 59}).Draw(t, "sharedbits")
+			base := rapid.Uint64().Draw(t, "hashbase")
+			k := rapid.IntRange(2, 6).Draw(t, "craftk")
+			for _, s := range craftGroup(base, shared, k, uint64(rapid.IntRange(0, 1000).Draw(t, "craftsalt"))) {
+				add(s)
+			}
+			classes["crafted"] = true
+			if shared >= 48 {
+				classes["crafted>=48bits"] = true
+			}
 		case 0, 1:
 			for _, s := range rapid.SliceOfN(asciiNameGen, 1, 8).Draw(t, "ascii") {
 				add(s)
@@ -257,8 +271,17 @@ func genNames(t *rapid.T, o nameOpts) ([]string, []string) {
 			classes["bulk"] = true
 		}
 	}
-	names := make([]string, 0, len(set))
+	// keep the set buildable at every fanout: names must pairwise differ within the first 60 digest bits
+	// (60 = the fewest bits any fanout 8..1024 can consume in whole levels)
+	byPrefix := map[uint64]string{}
 	for s := range set {
+		k := murmur3.Sum64([]byte(s)) >> 4
+		if prev, ok := byPrefix[k]; !ok || s < prev {
+			byPrefix[k] = s
+		}
+	}
+	names := make([]string, 0, len(byPrefix))
+	for _, s := range byPrefix {
 		names = append(names, s)
 	}
 	sort.Strings(names)
@@ -274,21 +297,57 @@ func genFanout(t *rapid.T) int { return 8 << rapid.IntRange(0, 7).Draw(t, "fanlg
 
 // ---------------------------------------------------------------- directory entries
 
+type cidT = cid.Cid
+
 type entrySpec struct {
 	Name  string
 	Cid   cid.Cid
 	Tsize uint64
 }
 
-// entryFor derives a (cid, tsize) for a name; salt varies the sizes between cases.
+// entryFor derives a (cid, tsize) for a name; salt varies the sizes between cases. Link targets are of mixed kinds
+// (CIDv1 raw 36 bytes, CIDv0 dag-pb 34 bytes, CIDv1 identity-hash of variable length) chosen by a hash of the name, so
+// that size estimates cannot assume one link length.
 func entryFor(name string, salt int) entrySpec {
-	c := sumRaw([]byte("entry:" + name))
 	h := 0
 	for i := 0; i < len(name); i++ {
 		h = h*31 + int(name[i])
 	}
 	if h < 0 {
 		h = -h
+	}
+	kind := 0
+	switch h % 8 {
+	case 1, 2:
+		kind = 1
+	case 3:
+		kind = 2
+	}
+	return entryForKind(name, salt, kind)
+}
+
+func entryForKind(name string, salt, kind int) entrySpec {
+	h := 0
+	for i := 0; i < len(name); i++ {
+		h = h*31 + int(name[i])
+	}
+	if h < 0 {
+		h = -h
+	}
+	c := sumRaw([]byte("entry:" + name))
+	switch kind {
+	case 1:
+		c = cid.NewCidV0(c.Hash())
+	case 2:
+		id := name
+		if len(id) > 12 {
+			id = id[:12]
+		}
+		mhash, err := mh.Sum([]byte("id:"+id), mh.IDENTITY, -1)
+		if err != nil {
+			panic(err)
+		}
+		c = cid.NewCidV1(codecRaw, mhash)
 	}
 	return entrySpec{Name: name, Cid: c, Tsize: uint64((h + salt*7919) % 100000)}
 }
